@@ -21,6 +21,7 @@ package main
 
 import (
 	"fmt"
+	"os"
 	"go/token"
 	"go/types"
 	"sort"
@@ -472,6 +473,16 @@ func (a *effAnalysis) instrEff(f *ssa.Function, in ssa.Instruction, e *effects, 
 					for _, g := range fns {
 						inst(g, cc.Args, p)
 					}
+				} else if prm := spilledParam(cc.Value); prm != nil {
+					// a func-typed parameter captured by an inner closure (spilled to a cell that holds nothing
+					// else) and called there: the parameter case above — accounted at the creator
+					if e.addR("DYN:"+prm.Name(), p) {
+						a.changed = true
+					}
+				} else if os.Getenv("PEGSA_DEBUG") == "eff" && func() bool {
+					fmt.Fprintf(os.Stderr, "unresolved func value %s = %v (%T) in %s\n", cc.Value.Name(), cc.Value, cc.Value, f)
+					return false
+				}() {
 				} else if e.addW("U:call through func value "+cc.Value.Name(), p) {
 					a.changed = true
 				}
@@ -727,4 +738,52 @@ func (a *effAnalysis) addressTaken(g *ssa.Function) bool {
 		})
 	}
 	return taken
+}
+
+
+// spilledParam: v is a load of a captured cell whose only store is a parameter
+// of the function that owns the cell (the parameter was captured by a closure).
+func spilledParam(v ssa.Value) *ssa.Parameter {
+	u, ok := v.(*ssa.UnOp)
+	if !ok || u.Op != token.MUL {
+		return nil
+	}
+	var cell ssa.Value = u.X
+	if fv, ok := cell.(*ssa.FreeVar); ok {
+		cell = rootBinding(fv)
+	}
+	al, ok := cell.(*ssa.Alloc)
+	if !ok {
+		return nil
+	}
+	var prm *ssa.Parameter
+	n := 0
+	var scan func(fn *ssa.Function)
+	scan = func(fn *ssa.Function) {
+		instrsOf(fn, func(in ssa.Instruction) {
+			st, ok := in.(*ssa.Store)
+			if !ok {
+				return
+			}
+			var tgt ssa.Value = st.Addr
+			if fv, ok := tgt.(*ssa.FreeVar); ok {
+				tgt = rootBinding(fv)
+			}
+			if tgt != ssa.Value(al) {
+				return
+			}
+			n++
+			if p, ok := st.Val.(*ssa.Parameter); ok && p.Parent() == al.Parent() {
+				prm = p
+			}
+		})
+		for _, af := range fn.AnonFuncs {
+			scan(af)
+		}
+	}
+	scan(al.Parent())
+	if n == 1 {
+		return prm
+	}
+	return nil
 }
